@@ -1,6 +1,7 @@
 package main
 
 import (
+	oci "github.com/opencontainers/runtime-spec/specs-go"
 	"bufio"
 	"bytes"
 	"encoding/json"
@@ -478,6 +479,19 @@ func genC08(r *hx.R, tier, scratch string) (*hx.Suite, error) {
 		add("schema.Validate(nil)", nil, cls, true, false)
 		cls = watchCall(func() { _, _ = wc.InjectDevices(nil, "a/b=c") }, limit)
 		add("Cache.InjectDevices(nil OCI)", nil, cls, true, false)
+		var aerr error
+		cls = watchCall(func() { aerr = (&cdi.ContainerEdits{ContainerEdits: &specs.ContainerEdits{Env: []string{"A=b"}}}).Apply(nil) }, limit)
+		add("ContainerEdits.Apply(nil OCI)", nil, cls, cls != 0 || aerr != nil, false)
+		cls = watchCall(func() { aerr = (&cdi.ContainerEdits{}).Apply(&oci.Spec{}) }, limit)
+		add("ContainerEdits{nil}.Apply", nil, cls, true, false)
+		cls = watchCall(func() { _ = (*cdi.ContainerEdits)(nil).Apply(&oci.Spec{}) }, limit)
+		add("(*ContainerEdits)(nil).Apply", nil, cls, true, false)
+		cls = watchCall(func() { _ = (&cdi.ContainerEdits{}).Validate() }, limit)
+		add("ContainerEdits{nil}.Validate", nil, cls, true, false)
+		cls = watchCall(func() { _ = (&cdi.ContainerEdits{}).Append(nil) }, limit)
+		add("ContainerEdits.Append(nil)", nil, cls, true, false)
+		cls = watchCall(func() { _, _ = cdi.ReadSpec("/nonexistent/dir/x.json", 0) }, limit)
+		add("ReadSpec(missing file)", nil, cls, true, false)
 		cls = watchCall(func() { _, _, _ = cdi.ParseAnnotations(nil) }, limit)
 		add("ParseAnnotations(nil map)", nil, cls, true, false)
 		cls = watchCall(func() { _, _ = cdi.UpdateAnnotations(nil, "p", "d", nil) }, limit)
